@@ -737,6 +737,9 @@ func search(s *tbin.Shape, n int, api string, maxDepth int, neg bool) core.Resul
 				continue
 			}
 			transitions++
+			if transitions%200 == 0 {
+				core.Alive()
+			}
 			if transitions%4000 == 0 {
 				runtime.GC() // safe point: no library value is alive here
 			}
